@@ -253,6 +253,37 @@ func runC04(c *ev.Ctx) {
 				c.NontrivialH(ev.Hash("u" + mut))
 			}
 		}
+		// Space 3b: the same document laid out with whitespace (FormatString), every single byte 0x80..0xFF
+		// inserted at every offset between the root brackets: a lone high byte is never valid UTF-8 there
+		// unless it completes a neighbour (checked with utf8.Valid), whatever byte class a shortcut might use
+		if v.Nodes() <= 3 {
+			var pretty string
+			try(func() { pretty = formatRoot(v.Build(), 1) })
+			if lo, hi := strings.IndexAny(pretty, "[{"), strings.LastIndexAny(pretty, "]}"); pretty != "" && lo >= 0 && hi > lo {
+				for off := lo + 1; off <= hi; off++ {
+					for b := 0x80; b <= 0xFF; b++ {
+						mut := pretty[:off] + string([]byte{byte(b)}) + pretty[off:]
+						if utf8.ValidString(mut[lo+1 : hi+1]) {
+							continue
+						}
+						c.Eval(1)
+						o := callParser(which, mut)
+						if o.panicked || o.err == nil || !o.isNil {
+							msg := fmt.Sprintf("%s did not reject the stray byte 0x%02X inserted at byte %d of the indented document %+q: panic=%v err=%v nil=%v", parserNames[which], b, off, pretty, o.panicked, o.err, o.isNil)
+							mm := mut
+							c.Violate(ev.Violation{Sig: "utf8/accepted-in-indented/" + parserNames[which], Msg: msg, Witness: map[string]string{"text": mm, "parser": parserNames[which]}}, func() string {
+								o := callParser(which, mm)
+								if o.panicked || o.err == nil || !o.isNil {
+									return "utf8/accepted-in-indented/" + parserNames[which]
+								}
+								return ""
+							})
+						}
+					}
+				}
+				c.NontrivialH(ev.Hash("i" + pretty))
+			}
+		}
 		c.SampleTag("docs", func() interface{} {
 			return map[string]string{"space": "2+3/prefixes and UTF-8 insertions of", "text": fmt.Sprintf("%+q", text)}
 		})
